@@ -175,6 +175,37 @@ SNIPPETS = textwrap.dedent('''
         x = np.arange(a * b).reshape(a, b)
         return [x.T[b - 1, 0], x.T.shape[0]]
 
+    def s_minmax_default(xs, d):
+        return [max(xs, default=d), min(xs, default=d), max([x for x in xs if x > 4], default=-1)]
+
+    def s_last_or_raise(xs):
+        return [x for x in xs if x > 4][-1]
+
+    def s_mask_int_assign(a, b, c, j, thr):
+        y = (np.arange(a * b * c) % 7).reshape(a, b, c) * 1.0
+        y[y[:, :, 0] * 2 <= thr, j] = 100.0
+        return [y[0, 0, j], y[a - 1, b - 1, j], y[a // 2, b // 2, (j + 1) % c], y[a - 1, 0, j]]
+
+    def s_unique_rows(rows):
+        u = np.unique(rows, axis=0)
+        return [tuple(r) for r in u]
+
+    def s_list_alias(n, k):
+        a = [[]] * n
+        a[k % n].append(7)
+        b = [[] for _ in range(n)]
+        b[k % n].append(7)
+        return [len(x) for x in a] + [len(x) for x in b]
+
+    def s_dict_get_truthy(names, want):
+        d = {n: i for i, n in enumerate(names)}
+        out = []
+        for w in want:
+            fid = d.get(w)
+            if fid:
+                out.append(fid)
+        return out
+
     def s_stack_min(a):
         x = np.arange(a * a).reshape(a, a)
         y = x[::-1, :]
@@ -269,6 +300,20 @@ def rnd_inputs(name, rng):
         return [R(1, 4), R(1, 4)]
     if name == "s_stack_min":
         return [R(1, 4)]
+    if name == "s_minmax_default":
+        return [[R(0, 9) for _ in range(R(0, 4))], R(-3, 3)]
+    if name == "s_last_or_raise":
+        return [[R(0, 9) for _ in range(R(0, 3))]]
+    if name == "s_mask_int_assign":
+        c = R(1, 4)
+        return [R(1, 4), R(1, 4), c, R(0, c - 1), R(0, 12)]
+    if name == "s_unique_rows":
+        return [[(R(1, 3), R(1, 2), R(1, 2)) for _ in range(R(1, 6))]]
+    if name == "s_list_alias":
+        return [R(1, 4), R(0, 9)]
+    if name == "s_dict_get_truthy":
+        names = rng.sample(["alpha", "beta", "gamma", "delta"], R(1, 4))
+        return [names, rng.sample(["alpha", "beta", "gamma", "delta", "zzz"], R(0, 4))]
     raise KeyError(name)
 
 
